@@ -29,7 +29,21 @@ def profiles(thorough):
 
 
 def correspondence(ctx):
-    return rt.run(ctx, sys.modules[__name__])
+    """runtime family + (the statement says "any adaptor built on them") the expression-level auto-disconnection
+    correspondence of C09 on a sample of adaptor expressions"""
+    res = rt.run(ctx, sys.modules[__name__])
+    try:
+        from props import c09
+        sub = c09.correspondence(ctx)
+        res["evaluations"] += sub.get("evaluations", 0)
+        res["distribution"]["adaptor_expressions_via_C09_machinery"] = {
+            "evaluations": sub.get("evaluations", 0), "distinct_nontrivial": sub.get("distinct_nontrivial", 0)}
+        res["monitor_failures"] += sub.get("monitor_failures", [])
+        res["disagreements"] += sub.get("disagreements", [])
+        res["infra_errors"] += sub.get("infra_errors", [])
+    except Exception as e:   # the C09 machinery is an addition; its absence must not mask the runtime result
+        res["distribution"]["adaptor_expressions_via_C09_machinery"] = "not run: %r" % (e,)
+    return res
 
 
 def search(ctx, disagreements):
